@@ -15,7 +15,7 @@ RULE = ("cases = seeded random aerostructural configurations (tube and wingbox, 
         "models and isolation under a change of another point's condition; (stiff) E,G x {1,1e2,1e4} against the rigid "
         "aerodynamic analysis.  Non-trivial = converged coupling with non-zero displacement and all comparisons evaluated")
 ASSUMPTIONS = ["coupled solver converged to a residual of 1e-10 (err_on_non_converge=True); comparisons through it use 1e-7", "reference VLM / frame solver"]
-REQUIRED_FAMILIES = ["fixed/aero_forces_from_def_mesh", "fixed/refvlm_forces", "fixed/disp_from_loads", "fixed/refframe_disp", "solvers/state", "solvers/outputs",
+REQUIRED_FAMILIES = ["fixed/aero_forces_from_def_mesh", "fixed/loads_equivalent_force", "fixed/loads_equivalent_moment", "fixed/refvlm_forces", "fixed/disp_from_loads", "fixed/refframe_disp", "solvers/state", "solvers/outputs",
                      "path/initial_guess", "path/from_other_point", "multipoint/equals_single_point", "multipoint/isolation", "stiff/tends_to_rigid"]
 LEVEL_TEXT = ("converged coupled states of real AerostructPoint models are re-derived through independent compositions (fresh aero-only "
               "and structure-only problems, reference solvers), through every supported solver pairing, from random initial guesses and "
@@ -134,6 +134,22 @@ def run_fixed(c, o):
         o.close("fixed/refvlm_forces", st["wing.sec_forces"].reshape(-1, 3), ref["F"], rtol=R, tags=tags, what="converged sec_forces vs the reference VLM on the converged deformed mesh")
     else:
         o._fam("fixed/refvlm_forces", 0.0)
+    # ---- the nodal loads handed to the structure are statically equivalent to the converged panel forces: nodal forces placed on
+    # the displaced beam axis (nodes + translation; where the structure itself is, whatever the transfer assumes) plus nodal moments
+    # have the resultant force and moment of the panel forces acting at the quarter-chord points of the converged deformed mesh
+    dm = st["wing.def_mesh"]
+    ap = 0.5 * (0.75 * dm[:-1, :-1] + 0.25 * dm[1:, :-1] + 0.75 * dm[:-1, 1:] + 0.25 * dm[1:, 1:])
+    sf = st["wing.sec_forces"]
+    ax = zoo.get(prob, "wing.nodes") + st["wing.disp"][:, :3]
+    ld = st["wing.loads"]
+    fs = np.abs(sf).sum() + 1e-300
+    span_ = np.ptp(dm[..., 1]) + np.ptp(dm[..., 0])
+    for P in (np.zeros(3), dm.reshape(-1, 3).mean(axis=0) + rng.normal(size=3) * span_):
+        Fa, Ma = sf.reshape(-1, 3).sum(axis=0), np.cross(ap.reshape(-1, 3) - P, sf.reshape(-1, 3)).sum(axis=0)
+        Fs, Ms = ld[:, :3].sum(axis=0), (np.cross(ax - P, ld[:, :3]) + ld[:, 3:]).sum(axis=0)
+        o.close("fixed/loads_equivalent_force", Fs, Fa, rtol=1e-10, scale=fs, tags=tags, what="resultant of the nodal loads vs resultant of the panel forces")
+        o.close("fixed/loads_equivalent_moment", Ms, Ma, rtol=1e-10, scale=fs * (span_ + np.linalg.norm(P)), tags=tags,
+                what="moment of the nodal loads on the displaced beam axis vs moment of the panel forces at their quarter-chord points")
     # ---- the displacements are those produced by these loads (fresh structure-only model)
     scase = dict(surface=s, loads=st["wing.loads"].tolist(), load_factor=flow["load_factor"], fuel_mass=flow["fuel_mass"])
     scase.update(extra)
